@@ -100,13 +100,14 @@ Proof.
 Qed.
 
 Lemma grow_scan_find : forall g refs sg,
-  grow_scan g refs = Some sg -> exists r, find (fun r => fst r =? sg) refs = Some r.
+  grow_scan g refs = Some sg -> exists r, find (fun r => r_sig r =? sg) refs = Some r.
 Proof.
-  intros g refs sg. induction refs as [|[h [room|]] r IH]; intros H; simpl in *; try discriminate.
+  intros g refs sg. induction refs as [|x r IH]; intros H; simpl in *; try discriminate.
+  destruct (r_cap x) as [room|].
   - destruct (room <? g).
     + inversion H; subst. rewrite Z.eqb_refl. eauto.
-    + destruct (h =? sg); eauto.
-  - destruct (h =? sg); eauto.
+    + destruct (r_sig x =? sg); eauto.
+  - destruct (r_sig x =? sg); eauto.
 Qed.
 
 Lemma verify_fail_cleared : forall en idx en1,
@@ -339,7 +340,7 @@ Qed.
 Definition ex_ops : list op :=
   [ Mut (MNewBus 500000 [1;2;3]); Mut (MNewNode 10 1 1); Mut (MNewNode 11 2 2);
     Mut (MNodeAttach 0 0 0); Mut (MNodeAttach 1 1 0); Mut (MNodeRename 1 10);
-    Mut MNewEnum; Mut (MEnumAddRef 0 7 (Some 2)); Mut (MEnumAddValue 0 100 1);
+    Mut MNewEnum; Mut (MEnumAddRef 0 7 (Some 2) true); Mut (MEnumAddValue 0 100 1);
     Mut (MEnumAddValue 0 101 8);
     Mut (MNewMsg 5 1 8 100 [7]); Mut (MMsgSetSender 0 0 0);
     Ro (RNodeGetAttr 1 99); Ro (REnumGetValue 0 555) ].
@@ -369,6 +370,6 @@ Qed.
 
 Lemma ro_writes_when_enum_hint_set_l : exists s q, fst (ro s q) <> s.
 Proof.
-  exists (mkState [] [mkEnum [] 0 1 [(7, None)] (Some 7)] [] []), (REnumGetValue 0 5).
+  exists (mkState [] [mkEnum [] 0 1 [mkRef 7 None false] (Some 7)] [] []), (REnumGetValue 0 5).
   vm_compute. discriminate.
 Qed.
